@@ -34,7 +34,9 @@ errors = sorted(p for p, c in res.get('checks', {}).items() if c['rc'] == 2)
 confirmed = (res.get('apply_rc') == 0 and res.get('pytest_rc') == 0 and res.get('demo_clean_rc') == 0
              and res.get('demo_patched_rc') not in (0, None))
 meta = {
-    'property': pid, 'variant': (('r' + round_) if round_ else '') + var, 'origin': 'independent sub-agent given only the property text and a scratch worktree',
+    'property': pid, 'variant': (('r' + round_) if round_ else '') + var, 'origin': ('independent sub-agent given the property text, a scratch worktree and - adversarial round - a description '
+               'of what the check suite already generates, asked for a change that slips past it') if round_ == '4' else
+              'independent sub-agent given only the property text and a scratch worktree',
     'what_it_needs_to_manifest': notes.strip(),
     'confirmed': confirmed,
     'confirmation': {'patch_applies_to_repo_HEAD': res.get('apply_rc') == 0,
